@@ -7,6 +7,7 @@
 import AeicProofs.Lemmas.C12EI
 import AeicProofs.Lemmas.KernelBridge
 import AeicProofs.Lemmas.KernelBridge6
+import AeicProofs.Lemmas.KernelBridge7
 
 namespace C12
 open Aeic Aeic.EI Aeic.Gen
@@ -674,5 +675,46 @@ theorem src_hcco_params_are_model (ei cal : Q4 ℝ) :
     Kern.hcco_param_base_log_EI (KernelBridge6.hcEnv ei cal) = (hccoParams ei cal).baseLogEI ∧
     Kern.hcco_param_x_horzline (KernelBridge6.hcEnv ei cal) = (hccoParams ei cal).horz ∧
     Kern.hcco_param_x_intercept (KernelBridge6.hcEnv ei cal) = (hccoParams ei cal).xInt := KernelBridge6.hcco_params ei cal
+
+/-! ## Source tie for volatile PM, the cruise thrust category and SCOPE11 (`Aeic.Kern.pmvol_*`, `thrust_cat`, `scope11_*`) -/
+
+/-- the thrust category the source assigns (index of the `ThrustMode` member `np.select` picks) is the model's: every flow gets
+    exactly one category, and the category never decreases when the fuel flow increases — for ANY calibration flows -/
+theorem src_thrust_cat (cal : Q4 ℝ) (f1 f2 : ℝ) (h : f1 ≤ f2) :
+    Kern.thrust_cat (KernelBridge7.calEnv cal) f1 = thrustCat f1 cal ∧
+    Kern.thrust_cat (KernelBridge7.calEnv cal) f1 ≤ 2 ∧
+    Kern.thrust_cat (KernelBridge7.calEnv cal) f1 ≤ Kern.thrust_cat (KernelBridge7.calEnv cal) f2 := by
+  rw [KernelBridge7.thrust_cat, KernelBridge7.thrust_cat]
+  exact ⟨rfl, (thrust_cat_total f1 cal).2.2.2, thrust_cat_monotone f1 f2 cal h⟩
+
+/-- FOA3 of the source: the interpolated organic-carbon delta stays within the tabulated values, the index scales linearly with the
+    HC index and is non-negative; the fuel-flow method returns the documented constants -/
+theorem src_pmvol (A : String → ℝ) (thrust hc c : ℝ) (idle : Bool) :
+    Kern.pmvol_foa3 A thrust hc = foa3 thrust hc ∧
+    Kern.pmvol_foa3 A thrust (c * hc) = c * Kern.pmvol_foa3 A thrust hc ∧
+    (0 ≤ hc → 0 ≤ Kern.pmvol_foa3 A thrust hc) ∧
+    Kern.pmvol_foa3_ocic A thrust hc = Kern.pmvol_foa3 A thrust hc ∧
+    (0 : ℝ) < Kern.pmvol_ff_pmvol A idle ∧ Kern.pmvol_ff_ocic A idle = 0.02 := by
+  obtain ⟨h1, h2, h3, h4⟩ := KernelBridge7.pmvol A thrust hc idle
+  obtain ⟨h1', _, _, _⟩ := KernelBridge7.pmvol A thrust (c * hc) idle
+  refine ⟨h1, ?_, ?_, ?_, ?_, ?_⟩
+  · rw [h1', h1]; exact foa3_scales_linearly c thrust hc
+  · intro hh; rw [h1]; exact foa3_nonneg thrust hc hh
+  · rw [h2, h1]
+  · rw [h3]; exact (pmvol_fuelflow_values _).2.2.1
+  · rw [h4]; exact (pmvol_fuelflow_values 0).2.2.2
+
+/-- SCOPE11 of the source is the model's `scope11Mode` for the three engine-type cases and all four modes, hence non-negative for
+    every smoke number (invalid ones included) and every bypass ratio ≥ 0 -/
+theorem src_scope11 (sn : Q4 ℝ) (bpr : ℝ) (hb : 0 ≤ bpr) :
+    0 ≤ Kern.scope11_mtf_IDLE (KernelBridge7.snEnv sn) bpr ∧ 0 ≤ Kern.scope11_mtf_TAKEOFF (KernelBridge7.snEnv sn) bpr ∧
+    0 ≤ Kern.scope11_tf_APPROACH (KernelBridge7.snEnv sn) bpr ∧ 0 ≤ Kern.scope11_tf_CLIMB (KernelBridge7.snEnv sn) bpr ∧
+    0 ≤ Kern.scope11_other_IDLE (KernelBridge7.snEnv sn) bpr ∧ Kern.scope11_other_CLIMB (KernelBridge7.snEnv sn) bpr = scope11Mode 2 2 sn.c bpr := by
+  obtain ⟨m1, _, _, m4⟩ := KernelBridge7.scope11_mtf sn bpr
+  obtain ⟨_, t2, t3, _⟩ := KernelBridge7.scope11_tf sn bpr
+  obtain ⟨o1, _, o3, _⟩ := KernelBridge7.scope11_other sn bpr
+  rw [m1, m4, t2, t3, o1, o3]
+  exact ⟨scope11_nonneg _ _ _ _ hb, scope11_nonneg _ _ _ _ hb, scope11_nonneg _ _ _ _ hb, scope11_nonneg _ _ _ _ hb,
+    scope11_nonneg _ _ _ _ hb, rfl⟩
 
 end C12
